@@ -137,10 +137,13 @@ type c03 struct {
 	m       *Model
 	slashed map[string]bool // bindings slashed at least once
 	refTry  map[string]int  // refund attempts per binding
+	// disabledAt: block time (ns) of the step in which the binding was last seen to go from available to
+	// unavailable - the disabling time the refund rule speaks of, whatever the record says
+	disabledAt map[string]int64
 }
 
 func newC03(w *World, m *Model) *c03 {
-	return &c03{oracleBase: newBase("C03", w), m: m, slashed: map[string]bool{}, refTry: map[string]int{}}
+	return &c03{oracleBase: newBase("C03", w), m: m, slashed: map[string]bool{}, refTry: map[string]int{}, disabledAt: map[string]int64{}}
 }
 
 func sumDeposits(s *Snapshot) int64 {
@@ -173,7 +176,11 @@ func (o *c03) Step(r *StepRec) []Violation {
 			return false, 0
 		}
 		// time.Time arithmetic (two separate additions): the sum of the two periods may not fit in one Duration
-		instT := b.DisabledTime.Add(time.Duration(o.w.cfg.ArbitrationNs)).Add(time.Duration(o.w.cfg.ComplaintNs))
+		disabled := b.DisabledTime
+		if at, seen := o.disabledAt[bk]; seen && time.Unix(0, at).After(disabled) {
+			disabled = time.Unix(0, at).UTC() // the record claims an earlier disabling than the one observed
+		}
+		instT := disabled.Add(time.Duration(o.w.cfg.ArbitrationNs)).Add(time.Duration(o.w.cfg.ComplaintNs))
 		now := time.Unix(0, r.TimeNs)
 		inst := instT.UnixNano()
 		if instT.Year() > 2250 {
@@ -208,6 +215,11 @@ func (o *c03) Step(r *StepRec) []Violation {
 	}
 	if !r.OK {
 		return o.take()
+	}
+	for bk, pb := range post.Binds {
+		if preB, existed := pre.Binds[bk]; existed && preB.Available && !pb.Available {
+			o.disabledAt[bk] = r.TimeNs
+		}
 	}
 	e := ExpectedEffects(o.w, o.m, r)
 	for _, s := range e.Slashes {
@@ -433,9 +445,14 @@ type c05 struct {
 	oracleBase
 	m     *Model
 	wrong map[string]bool // message kinds attempted by a wrong signer against an existing target
+	// ownerOf: the owner every provider got with its first binding, remembered for good (also across a
+	// restart of the chain: a provider "belongs to" its owner whatever the store says later)
+	ownerOf map[string]string
 }
 
-func newC05(w *World, m *Model) *c05 { return &c05{oracleBase: newBase("C05", w), m: m, wrong: map[string]bool{}} }
+func newC05(w *World, m *Model) *c05 {
+	return &c05{oracleBase: newBase("C05", w), m: m, wrong: map[string]bool{}, ownerOf: map[string]string{}}
+}
 
 func (o *c05) isModuleAcc(a string) bool {
 	return a == o.w.DepositAcc || a == o.w.RequestAcc || a == o.w.FeeCollector
@@ -495,11 +512,23 @@ func (o *c05) Step(r *StepRec) []Violation {
 				break
 			}
 		}
+		if ow, ok := o.ownerOf[a.Provider]; ok {
+			if !target {
+				o.hit("bind_of_a_provider_whose_bindings_are_gone")
+			}
+			rightful, target = ow, true // the owner it has had since its first binding
+		}
 		if o.w.cfg.ModSvc != nil && a.Service == ModSvcName {
 			o.hit("bind_reserved_service")
 			if r.OK {
 				o.fail("c05:bind_reserved", "binding the module-reserved service succeeded")
 			}
+		}
+	}
+	for _, bk := range sortedKeys(post.Binds) {
+		b := post.Binds[bk]
+		if _, known := o.ownerOf[hx(b.Provider)]; !known {
+			o.ownerOf[hx(b.Provider)] = hx(b.Owner)
 		}
 	}
 	if target && !r.InTx {
